@@ -23,6 +23,7 @@ class RunRecord:
     requests: list = field(default_factory=list)  # loopback.Recorded
     exception: str | None = None
     stop_requested_at: float | None = None
+    stop_requested_wall: float | None = None
     stdout: str = ""
     exit_code: int | None = None
 
@@ -189,7 +190,7 @@ def run_engine(
             calls[0] += 1
             if calls[0] == stop["k"] and "stream" in holder:
                 holder["stream"].stop()
-                record.stop_requested_at = time.monotonic()
+                record.stop_requested_at = time.monotonic(); record.stop_requested_wall = time.time()
             return None
 
         stopper.__name__ = "vfw_stopper"
@@ -204,7 +205,7 @@ def run_engine(
         while True:
             try:
                 if stop["kind"] == "throw" and index == stop["k"]:
-                    record.stop_requested_at = time.monotonic()
+                    record.stop_requested_at = time.monotonic(); record.stop_requested_wall = time.time()
                     event = it.throw(KeyboardInterrupt)
                 else:
                     event = next(it)
@@ -217,7 +218,7 @@ def run_engine(
                 on_event(event, stream, index)
             if stop["kind"] == "after_event" and index == stop["k"]:
                 stream.stop()
-                record.stop_requested_at = time.monotonic()
+                record.stop_requested_at = time.monotonic(); record.stop_requested_wall = time.time()
             if time.monotonic() - started > max_wall_s:
                 stream.stop()
     except BaseException as exc:  # noqa: BLE001
